@@ -959,7 +959,7 @@ def _all_targets():
 
 
 # translated already, tie theorem not proved yet: not emitted (an untied definition proves nothing, and could only break the build)
-PENDING = {"LaneletNetwork_find_lanelet_by_position"}
+PENDING = set()
 
 
 def targets():
